@@ -27,9 +27,9 @@ func main() {
 	sim.WorkerMain(sim.EngineSpec{
 		Name: "csim",
 		Props: map[string]sim.PropSpec{
-			"C03": {Run: runC03, Modes: []string{"any"}},
-			"C05": {Run: runC05, Modes: []string{"multi_split", "every_split", "multi_split", "dst_minimum", "multi_split"}},
-			"C07": {Run: runC07, Modes: []string{"valid", "valid", "hashers"}},
+			"C03": {Run: runC03, Modes: []string{"any", "any", "images"}},
+			"C05": {Run: runC05, Modes: []string{"multi_split", "every_split", "multi_split", "dst_minimum", "multi_split", "images"}},
+			"C07": {Run: runC07, Modes: []string{"valid", "valid", "hashers", "images"}},
 			"C08": {Run: runC08, Modes: []string{"histories"}},
 			"C09": {Run: runC09, Modes: []string{"variants"}},
 		},
